@@ -25,6 +25,7 @@ ASSUMPTIONS = ["explicit values only (no pending defaults) and no sharing: the s
 class Node(HasTraits):
     value = Int
     child = Instance(HasTraits)
+    child2 = Instance(HasTraits)          # second Instance link, used in the bracket group [child,child2]
     children = List(Instance(HasTraits))
     table = Dict(Str, Instance(HasTraits))
     group = Set(Instance(HasTraits))
@@ -43,8 +44,32 @@ class EqNode(Node):
         return hash(self.__dict__.get("_eqk"))
 
 
-LINKS = ["child", "children", "table", "group"]
+class DynNode(Node):
+    """The container links have dynamic default initialisers (never used here: every node gets explicit values)."""
+
+    def _children_default(self):
+        return []
+
+    def _table_default(self):
+        return {}
+
+    def _group_default(self):
+        return set()
+
+
+GRP = "[child,child2]"          # a bracket group of two Instance links (simple names only)
+LINKS = ["child", "children", "table", "group", GRP]
 CONTAINERS = ("children", "table", "group")
+
+
+def follow(o, l):
+    """Objects one link further."""
+    if l == "child":
+        return [o.child] if o.child is not None else []
+    if l == GRP:
+        return [v for v in (o.child, o.child2) if v is not None]
+    v = getattr(o, l)
+    return list(v.values()) if l == "table" else list(v)
 
 
 def names(p):
@@ -53,6 +78,7 @@ def names(p):
         sep = "." if n else ":"
         otc += l + sep
         obs += l + sep + ("items" + sep if l in CONTAINERS else "")
+    # (a bracket group is written the same way in both systems)
     return otc + "value", obs + "value"
 
 
@@ -61,14 +87,7 @@ def reachable(root, p):
     for (l, n) in p:
         nxt = []
         for o in objs:
-            v = getattr(o, l)
-            if l == "child":
-                if v is not None:
-                    nxt.append(v)
-            elif l == "table":
-                nxt.extend(v.values())
-            else:
-                nxt.extend(v)
+            nxt.extend(follow(o, l))
         objs = nxt
     return {id(o) for o in objs}
 
@@ -76,6 +95,7 @@ def reachable(root, p):
 I30 = st.integers(0, 30)
 OP = st.one_of(
     st.tuples(st.just("set_child"), I30, st.booleans()), st.tuples(st.just("set_child"), I30, st.booleans()),
+    st.tuples(st.just("set_child"), I30, st.booleans(), st.just(True)),          # ... the second Instance link, child2
     st.tuples(st.just("append"), I30), st.tuples(st.just("append"), I30), st.tuples(st.just("pop"), I30, st.integers(-2, 2)),
     st.tuples(st.just("set_children"), I30, st.integers(0, 3)), st.tuples(st.just("slice"), I30, st.integers(0, 2)),
     st.tuples(st.just("reverse"), I30), st.tuples(st.just("sort"), I30), st.tuples(st.just("insert"), I30, st.integers(-2, 2)),
@@ -99,6 +119,8 @@ def strategy(tier):
         "sig": st.sampled_from([4, 4, 4, 1, 2]),
         # nodes with value-based equality: an item may be replaced by a distinct object that compares EQUAL to it
         "eqnodes": st.sampled_from([False, False, True]),
+        # node class whose container links have `_<name>_default` methods (unused: all values are explicit)
+        "dyn_defaults": st.sampled_from([False, False, True]),
     })
 
 
@@ -120,6 +142,7 @@ def run(case, ctx):
 
     def init(n):
         n.child = None
+        n.child2 = None
         n.children = []
         n.table = {}
         n.group = set()
@@ -129,7 +152,7 @@ def run(case, ctx):
         ctx.label("value-equal-nodes")
 
     def fresh():
-        n = EqNode() if eqn else Node()
+        n = EqNode() if eqn else DynNode() if case.get("dyn_defaults") else Node()
         n.__dict__["_eqk"] = len(created) % 2
         n.__dict__["_nid"] = len(created)
         created.append(n)
@@ -193,22 +216,26 @@ def _run_body(case, ctx, p, sig, loud_short, otc_name, obs_name, created, fresh,
         for (l, nflag) in p[:-1]:
             nxt = []
             for o in objs:
-                v = getattr(o, l)
-                nxt.extend([v] if l == "child" and v is not None else [] if l == "child" else (v.values() if l == "table" else v))
+                nxt.extend(follow(o, l))
             objs = nxt
             onpath.extend(objs)
         n = onpath[op[1] % len(onpath)] if op[1] % 3 else created[op[1] % len(created)]
         del A[:], B[:]
         link = None
-        old_vals = {"child": n.child, "children": list(n.children), "table": dict(n.table), "group": set(n.group)}
+        old_vals = {"child": n.child, "child2": n.child2, "children": list(n.children), "table": dict(n.table), "group": set(n.group)}
         if eqn and k in ("set_children", "set_table", "set_group"):
             continue          # (assigning a container that compares EQUAL to the old one is, by design, not a change)
         if k == "set_child":
             new_child = fresh() if op[2] else None
-            if eqn and new_child is not None and n.child is not None and new_child == n.child:
+            old_link_value = n.child2 if (len(op) > 3 and op[3]) else n.child
+            if eqn and new_child is not None and old_link_value is not None and new_child == old_link_value:
                 new_child.__dict__["_eqk"] = 1 - new_child.__dict__["_eqk"]        # (same reason: keep it a real change)
-            n.child = new_child
-            link = "child"
+            if len(op) > 3 and op[3]:
+                n.child2 = new_child
+                link = "child2"
+            else:
+                n.child = new_child
+                link = "child"
         elif k == "append":
             n.children.append(fresh())
         elif k == "insert":
@@ -275,16 +302,16 @@ def _run_body(case, ctx, p, sig, loud_short, otc_name, obs_name, created, fresh,
             objs = [root]
             for (l, nflag) in p:
                 for o in objs:
-                    depth_flags[(id(o), l)] = nflag
+                    for l_ in (("child", "child2") if l == GRP else (l,)):
+                        depth_flags[(id(o), l_)] = nflag
                 nxt = []
                 for o in objs:
-                    v = getattr(o, l)
-                    nxt.extend([v] if l == "child" and v is not None else [] if l == "child" else (v.values() if l == "table" else v))
+                    nxt.extend(follow(o, l))
                 objs = nxt
             want = depth_flags.get((id(n), link))
             got = (id(n), link) in b_links
             new_val = getattr(n, link)
-            really_changed = (new_val is not old_vals[link]) if link == "child" else (new_val != old_vals[link])
+            really_changed = (new_val is not old_vals[link]) if link in ("child", "child2") else (new_val != old_vals[link])
             if want is not None and bool(want and really_changed) != got and (id(n), link) in depth_flags:
                 ctx.fail("links/notify-flag", "%r: assignment to %r.%s (link written with %r) reported=%r"
                          % (obs_name, n, link, "." if want else ":", got))
